@@ -9,7 +9,7 @@
    Only statements closed by [exact] and their Print Assumptions. *)
 From Coq Require Import ZArith List Bool Arith Permutation.
 From RL4CO Require Import Base.FFSPLists Spec.Schedule Spec.FlowShop Env.FFSP Env.FFSPProofs Env.SMTWTP Env.SchedBatch2.
-From RL4CO Require Import Env.FJSP Env.FJSPProofs Env.SchedBatch.
+From RL4CO Require Import Env.FJSP Env.FJSPProofs Env.SchedBatch Env.SchedGuards.
 Import ListNotations.
 Open Scope nat_scope.
 
@@ -181,6 +181,35 @@ Theorem C04_smtwtp_batch_finishes_together :
 Proof. exact smtwtp_batch_finishes_together. Qed.
 Print Assumptions C04_smtwtp_batch_finishes_together.
 
+(* ================================================================ FFSPEnv.pre_step: a batch-global misuse guard *)
+(* [b_pre_step rows] is env.pre_step on a whole batch (Env/SchedGuards.v: machine_idx re-read from the row's machine table,
+   _update_step_state, then the asserts  (stage_idx == 0).all()  and  (stage_machine_idx == machine_idx).all();  None = the
+   call raises).  Right after reset -- the only legal place, MatNet's multi-start flow calls it there -- it raises for no
+   batch of well-formed instances and changes no row. *)
+Theorem C04_ffsp_pre_step_after_reset_is_identity :
+  forall (insts : list FFSP.inst),
+    Forall (fun i => FFSP.wfb i = true) insts ->
+    b_pre_step (map (fun i => (i, FFSP.reset i)) insts) = Some (map FFSP.reset insts).
+Proof. exact ffsp_pre_step_after_reset. Qed.
+Print Assumptions C04_ffsp_pre_step_after_reset_is_identity.
+
+(* on a running batch the guard is batch-global: ONE row whose current machine belongs to a later stage makes the call raise
+   for every row (so a batch-mate decides whether the call on a row at stage 0 goes through) ... *)
+Theorem C04_ffsp_pre_step_refuses_running_batch :
+  forall (rows : list (FFSP.inst * FFSP.st)),
+    (exists r, In r rows /\ FFSP.stage_of (fst r) (FFSP.sub (snd r)) <> 0) -> b_pre_step rows = None.
+Proof. exact ffsp_pre_step_refuses_running_batch. Qed.
+Print Assumptions C04_ffsp_pre_step_refuses_running_batch.
+
+(* ... and when it does return, every row is at stage 0 and has been rewritten by its own row-wise pre_step only *)
+Theorem C04_ffsp_pre_step_is_rowwise :
+  forall (rows : list (FFSP.inst * FFSP.st)) (outs : list FFSP.st),
+    b_pre_step rows = Some outs ->
+    outs = map (fun r => pre_row (fst r) (snd r)) rows /\
+    forall r, In r rows -> FFSP.stage_of (fst r) (FFSP.sub (snd r)) = 0.
+Proof. exact ffsp_pre_step_rowwise. Qed.
+Print Assumptions C04_ffsp_pre_step_is_rowwise.
+
 (* ================================================================ non-vacuity *)
 (* a concrete batch of three rows of the example instance (one scheduling, one finished and padded, one at reset) through
    the batched step equals the three row-wise steps *)
@@ -217,3 +246,14 @@ Proof. exact ffsp_b_step_example. Qed.
 Example C04_sched_job_op_view_example :
   b_view (-1)%Z [(ex_i, [7; 8; 9; 0]%Z)] = [[[7; 8]; [9; -1]]]%Z.
 Proof. vm_compute. reflexivity. Qed.
+
+(* pre_step: a reset row next to a row two steps into its episode (stage 1) is refused; two reset rows pass unchanged *)
+Example C04_sched_ffsp_pre_step_example :
+  FFSP.wfb FFSP.ex_i = true /\
+  b_pre_step [(FFSP.ex_i, FFSP.reset FFSP.ex_i); (FFSP.ex_i, FFSP.reset FFSP.ex_i)] = Some [FFSP.reset FFSP.ex_i; FFSP.reset FFSP.ex_i] /\
+  match FFSP.run FFSP.ex_i (FFSP.reset FFSP.ex_i) [1; 0; 2] with
+  | Some s => FFSP.stage_of FFSP.ex_i (FFSP.sub s) = 1 /\ b_pre_step [(FFSP.ex_i, FFSP.reset FFSP.ex_i); (FFSP.ex_i, s)] = None /\
+              b_pre_step [(FFSP.ex_i, s)] = None
+  | None => False
+  end.
+Proof. exact ffsp_pre_step_examples. Qed.
